@@ -100,6 +100,11 @@ def precedence_items(r, tier):
 
 # --------------------------------------------------------------------------- B: scoping
 
+class Raised(Exception):
+    def __init__(self, cls):
+        self.cls = cls
+
+
 class Scope:
     """scope-stack evaluator over the generator's structure"""
 
@@ -201,10 +206,18 @@ class Scope:
                     self.run(b[2])
                 self.frames.pop()
             elif k == 'try':
-                # body = one dtml-raise of a known class; the handler sees error_type
-                self.frames.append({'error_type': {'s': b[1][0][1]}})
-                self.run(b[2][0][1])
-                self.frames.pop()
+                # whatever the body had bound when it raised is gone in the handler and after the tag
+                mark, depth = len(self.out), len(self.frames)
+                try:
+                    self.run(b[1])
+                except Raised as e:
+                    del self.out[mark:]
+                    del self.frames[depth:]
+                    self.frames.append({'error_type': {'s': e.cls}})
+                    self.run(b[2][0][1])
+                    self.frames.pop()
+            elif k == 'raise':
+                raise Raised(b[1])
             else:
                 raise ValueError(k)
 
@@ -221,7 +234,7 @@ def scoped_blocks(r, depth, counters):
     for _ in range(r.randint(1, 2)):
         if depth == 0:
             break
-        k = r.choice(['let', 'with', 'in', 'cond', 'try', 'letexpr'])
+        k = r.choice(['let', 'with', 'in', 'cond', 'try', 'letexpr', 'tryleak'])
         counters['n'] += 1
         tag = '%s%d' % (k[0].upper(), counters['n'])
         inner = scoped_blocks(r, depth - 1, counters)
@@ -241,6 +254,20 @@ def scoped_blocks(r, depth, counters):
         elif k == 'cond':
             out.append(['cond', [[['n', r.choice(['fa', 'fz', 'nodef'])], inner],
                                  [r.choice([['n', 'fa'], ['e', ['name', 'fz']]]), inner]], None])
+        elif k == 'tryleak':
+            # an exception raised INSIDE a binding block (at some iteration / nesting), handled outside it: every binding of
+            # the abandoned blocks must be gone in the handler and afterwards
+            boom = probes(r) + [['raise', r.choice(['KeyError', 'ValueError']), None, [['lit', 'm']]]]
+            w = r.choice(['in', 'in', 'with', 'let', 'in-in'])
+            if w == 'in':
+                guarded = [['in', ['n', r.choice(['seq1', 'seq2'])], {}, boom, None]]
+            elif w == 'in-in':
+                guarded = [['in', ['n', 'seq1'], {}, [['in', ['n', 'seq2'], {}, boom, None]], None]]
+            elif w == 'with':
+                guarded = [['with', ['n', r.choice(['wo1', 'wo2'])], False, False, boom]]
+            else:
+                guarded = [['let', [['a', ['e', ['lit', {'s': tag + 'a'}]]]], boom]]
+            out.append(['try', probes(r) + guarded, [['', inner]], None])
         else:
             out.append(['try', [['raise', r.choice(['KeyError', 'ValueError']), None, [['lit', 'm']]]],
                         [['', inner]], None])
@@ -290,12 +317,15 @@ class ScopeSeq(Scope):
 
 def _kinds(blocks):
     for b in blocks:
+        if b[0] == 'raise':
+            yield 'raise'
         if b[0] in ('let', 'with', 'in', 'cond', 'try'):
             yield b[0]
             if b[0] == 'cond':
                 for s, body in b[1]:
                     yield from _kinds(body)
             elif b[0] == 'try':
+                yield from _kinds(b[1])
                 yield from _kinds(b[2][0][1])
             else:
                 yield from _kinds(b[{'let': 2, 'with': 4, 'in': 3}[b[0]]])
@@ -380,6 +410,49 @@ def reentry_case(r):
     return case, ''.join(sc.out), sc.calls, ('D', indirect, proggen.print_blocks(ta)[:60])
 
 
+# --------------------------------------------------------------------------- E: objects that change while rendering
+
+def dynamic_cases(res):
+    """a name is looked up while the client / with / in object does not have it (a lower-priority source answers), then a
+    method called from the template gives the object that attribute: the higher-priority source must answer from then on"""
+    from DocumentTemplate import HTML
+
+    class Order:
+        def __init__(self):
+            self.calls = 0
+
+        def compute(self):
+            self.calls += 1
+            self.total = 'total of the order'
+            return ''
+
+    cases = [
+        ('client', '<dtml-var total>|<dtml-call compute><dtml-var total>', lambda o: ((o,), {'total': 'call mapping'}, {}),
+         'call mapping|total of the order'),
+        ('client-default', '<dtml-var total>|<dtml-call compute><dtml-var total>', lambda o: ((o,), {}, {}), 'default|total of the order'),
+        ('with', '<dtml-with o><dtml-var total>|<dtml-call compute><dtml-var total></dtml-with>', lambda o: ((), {}, {'o': o, 'total': 'kw'}),
+         'kw|total of the order'),
+        ('in', '<dtml-in l><dtml-var total>|<dtml-call compute><dtml-var total></dtml-in>', lambda o: ((), {'total': 'm'}, {'l': [o]}),
+         'm|total of the order'),
+        ('if', '<dtml-with o><dtml-if total>Y<dtml-else>N</dtml-if><dtml-call compute><dtml-if total>Y<dtml-else>N</dtml-if></dtml-with>',
+         lambda o: ((), {}, {'o': o}), 'NY'),
+    ]
+    for name, src, build, want in cases:
+        o = Order()
+        client, mapping, kw = build(o)
+        t = HTML(src, total='default') if name == 'client-default' else HTML(src)
+        try:
+            got = t(client[0] if client else None, mapping, **kw)
+        except Exception as e:  # noqa
+            got = 'RAISED %s: %s' % (type(e).__name__, e)
+        res.evaluations += 1
+        res.nt(('dynamic', name))
+        res.count('part=E')
+        if got != want:
+            res.oracle_fail.append({'case': {'part': 'E', 'key': name, 'source': src},
+                                    'what': 'an attribute the object gained during the rendering: expected %r, got %r' % (want, got)})
+
+
 # --------------------------------------------------------------------------- driver
 
 def check(res, items, have_driver):
@@ -433,6 +506,7 @@ def run(res, tier, have_driver):
                 '(part, kind, subset / block kinds / form) keys')
     items = all_items(r, tier, 600 if tier == 'quick' else 8000)
     runs = check(res, items, have_driver)
+    dynamic_cases(res)
     res.exhaustive = True
     for i in (5, len(runs) // 2, len(runs) - 1):
         c, plan, impl, m = runs[i]
